@@ -23,7 +23,7 @@ RULE_TEXT = ('runs = seeded random suite hierarchies (depth <= 3, <= 3 sub-suite
              'file); a fixed sweep assigns every verdict to a case of a one-suite and of a two-level hierarchy. Each '
              'plan runs with both reporters. Non-trivial = >= 2 cases or a structural fault; distinct = (hierarchy '
              'shape, listing styles, multiset of endings, structural fault).')
-REACH_PROBES = ['launched_with_directory_argument', 'launched_from_another_directory', 'case_listed_twice_in_one_suite', 'case_listed_twice_ends_differently', 'section_reopened', 'suites_by_glob_of_directories', 'suites_by_glob_of_files', 'ending_processor_fails', 'verdict_PASS', 'verdict_FAIL', 'verdict_XFAIL', 'verdict_XPASS', 'verdict_SKIPPED',
+REACH_PROBES = ['case_name_with_glob_characters_listed_in_quotes', 'launched_with_directory_argument', 'launched_from_another_directory', 'case_listed_twice_in_one_suite', 'case_listed_twice_ends_differently', 'section_reopened', 'suites_by_glob_of_directories', 'suites_by_glob_of_files', 'ending_processor_fails', 'verdict_PASS', 'verdict_FAIL', 'verdict_XFAIL', 'verdict_XPASS', 'verdict_SKIPPED',
                 'verdict_VALIDATION_ERROR', 'verdict_HARD_ERROR', 'verdict_INTERNAL_ERROR', 'verdict_SYNTAX_ERROR',
                 'verdict_FILE_ACCESS_ERROR', 'ending_act_syntax', 'ending_unreadable', 'ending_timeout', 'all_ok',
                 'some_unsuccessful', 'sub_suite', 'depth_3', 'glob_listing', 'directory_reference', 'invalid_twice',
@@ -119,6 +119,8 @@ def gen_hierarchy(g, force_subs=False):
             r = g.random()
             e = 'PASS' if r < 0.45 else g.choice(ENDING_NAMES)
             cases.append({'id': 'c%02d' % counter[1], 'ending': e})
+            if g.random() < 0.12:
+                cases[-1]['odd_name'] = True
         fname = 'exactly.suite' if ref == 'dir' else ('%s.suite' % key)
         h[key] = {'dir': d, 'file': fname, 'subs': [], 'cases': cases, 'style': g.choice(['explicit', 'explicit', 'glob', 'mixed']),
                   'ref': ref, 'setup_marker': g.random() < 0.4}
@@ -193,7 +195,14 @@ def case_file(s, c, style_index):
         ext = 'case'
     else:
         ext = 'tc' if style_index < (len(s['cases']) + 1) // 2 else 'case'
+    if c.get('odd_name') and ext == 'tc':
+        # a file name with characters that mean something in a glob pattern: listed within quotes, it is that file
+        return '[w] %s.%s' % (c['id'], ext)
     return '%s.%s' % (c['id'], ext)
+
+
+def _listed(f):
+    return "'%s'" % f if any(ch in f for ch in '[]*? ') else f
 
 
 def listing(s):
@@ -204,7 +213,7 @@ def listing(s):
     for k, c in enumerate(s['cases']):
         f = case_file(s, c, k)
         if f.endswith('.tc'):
-            lines.append(f)
+            lines.append(_listed(f))
             order.append((c, f))
         else:
             globbed.append((c, f))
@@ -212,12 +221,12 @@ def listing(s):
     if dup and dup['how'] == 'explicit_twice' and dup['k'] < len(s['cases']):
         c = s['cases'][dup['k']]
         f = case_file(s, c, dup['k'])
-        lines.append(f)
+        lines.append(_listed(f))
         order.append((c, f))
     if dup and dup['how'] == 'explicit_and_glob' and dup['k'] < len(s['cases']):
         c = s['cases'][dup['k']]
         f = case_file(s, c, dup['k'])
-        lines.insert(0, f)
+        lines.insert(0, _listed(f))
         order.insert(0, (c, f))
     if globbed:
         lines.append('*.case')
@@ -342,7 +351,7 @@ def build_world(plan, w):
         add_suite_ref(tp, 'no-such.suite')
     elif fault == 'missing_case':
         tp = os.path.join(w.home, suite_path(h, keys[0])) if keys else rootp
-        append(tp, '[cases]\nno-such-case.tc\n')
+        append(tp, '[cases]\n%s\n' % ("'[todo] no-such-case.tc'" if int(plan['run_seed'][:2], 16) % 2 else 'no-such-case.tc'))
     elif fault == 'syntax_root':
         append(rootp, '[no-such-section]\nx\n')
     elif fault == 'syntax_sub':
@@ -476,6 +485,8 @@ def _probes(plan, hist):
             pr['glob_listing'] = 1
         if any(s['ref'] == 'dir' for s in h.values()):
             pr['directory_reference'] = 1
+        if any(c.get('odd_name') and '[' in f for s_ in h.values() for c, f in listing(s_)[1]):
+            pr['case_name_with_glob_characters_listed_in_quotes'] = 1
         if plan.get('launch'):
             pr['launched_' + {'dir': 'with_directory_argument', 'elsewhere': 'from_another_directory'}[plan['launch']]] = 1
         if has_double_listing(plan):
